@@ -191,24 +191,31 @@ def bounded(tier, seed):
             with open(p, "wb") as f:
                 f.write(b"0123456789")
             for dl in (None, "dl.txt", "ü.txt", "π.txt"):
+              # (Range alone, and Range with an If-Range validator that is stale / junk / current: the request-header dispatch)
+              for if_range in ((None,) if dl else (None, '"stale"', "Wed, 21 Oct 2015 07:28:00 GMT", "junk", "CURRENT")):
                 for rng_h in (None, "bytes=0-3", "bytes=0-1,3-4", "bytes=99-", "bytes=5-4", "nope"):
+                  for method in (("GET",) if dl else ("GET", "HEAD")):
                     for iface in ("wsgi", "asgi"):
                         mod = W if iface == "wsgi" else A
                         evals += 1
-                        inputs = {"kind": "file", "file": fname, "download_name": dl, "range": rng_h, "iface": iface}
+                        inputs = {"kind": "file", "file": fname, "download_name": dl, "range": rng_h, "iface": iface,
+                                  "if_range": if_range, "method": method}
                         try:
                             resp = mod.FileResponse(p, download_name=dl)
                         except Exception as e:  # noqa
                             fail(inputs, ["constructor raised %r" % e])
                             continue
                         hs = [("Range", rng_h)] if rng_h else []
+                        if if_range is not None:
+                            cur = '"%s"' % mod.FileResponse.generate_etag(os.stat(p))
+                            hs.append(("If-Range", cur if if_range == "CURRENT" else if_range))
                         if iface == "wsgi":
-                            rec = run_wsgi(resp, wsgi_environ("GET", "/", hs))
+                            rec = run_wsgi(resp, wsgi_environ(method, "/", hs))
                             v = check_wsgi(rec)
                         else:
-                            rec = run_asgi(resp, asgi_scope("GET", "/", hs))
+                            rec = run_asgi(resp, asgi_scope(method, "/", hs))
                             v = check_asgi(rec)
-                        distinct.add((fname, dl, rng_h, iface))
+                        distinct.add((fname, dl, rng_h, iface, if_range, method))
                         if v:
                             fail(inputs, v)
     finally:
